@@ -147,9 +147,18 @@ func randAnnotated(r *rand.Rand) poly.Sequence {
 	}
 	for i := 0; i < nf; i++ {
 		x := randLoc(r, r.Intn(5), L)
+		loc := toStruct(x, r.Intn(2) == 0)
+		if r.Intn(6) == 0 {
+			// a node that is neither join nor complement and holds exactly one sub location is a value like any
+			// other (it reports its child's bases); it must come back as it was written
+			loc = poly.Location{Start: r.Intn(L), End: r.Intn(L + 1), FivePrimePartial: r.Intn(3) == 0, ThreePrimePartial: r.Intn(3) == 0, SubLocations: []poly.Location{loc}}
+			if r.Intn(3) == 0 {
+				loc = poly.Location{Join: r.Intn(2) == 0, SubLocations: []poly.Location{loc}}
+			}
+		}
 		f := poly.Feature{Name: uniText(r, 2), Source: uniText(r, 2), Type: uniText(r, 1), Score: uniText(r, 1), Strand: uniText(r, 1), Phase: uniText(r, 1),
 			GbkLocationString: uniText(r, 2), Sequence: uniText(r, 2), SequenceHash: uniText(r, 1), Description: uniText(r, 4), SequenceHashFunction: uniText(r, 1),
-			SequenceLocation: toStruct(x, r.Intn(2) == 0)}
+			SequenceLocation: loc}
 		switch r.Intn(3) {
 		case 0:
 		case 1:
